@@ -1097,7 +1097,15 @@ func (c *FnCtx) checkPost(st *State, vals []string, pos token.Pos) {
 	if c.unroll == 0 {
 		save := c.curProp
 		c.curProp = "*"
+		nb := len(c.obls)
 		c.oblige(st, "reach", "reach@"+c.retSite, "false", pos, "return site reachable: "+c.retSite)
+		for _, u := range c.con.Unreachable {
+			if u == c.retSite {
+				for _, o := range c.obls[nb:] {
+					o.DeclaredUnreachable = true
+				}
+			}
+		}
 		c.curProp = save
 	}
 	c.framePost(st, pos)
